@@ -34,6 +34,20 @@ static std::string uvr(Toks& t) {
     VectorXd Ld = utils::multivariate_gaussian_log_density(x, m, S);
     VectorXd Dd = utils::multivariate_gaussian_density(x, m, S);
     Out o; o.s("ok"); o.n(L.size()); o.m(L); o.n(D.size()); o.m(D); o.n(Ld.size()); o.m(Ld); o.n(Dd.size()); o.m(Dd);
+    // "given in full or as one shared block": the other encoding of the same R, when there is one
+    // (a shared block as the row repeating it; a row of equal blocks as the single block)
+    bool other = false; MatrixXd R2;
+    if (enc == 0) { other = true; R2.resize(bs, d); for (long i = 0; i < nb; ++i) R2.block(0, bs * i, bs, bs) = R; }
+    else {
+        other = true;
+        for (long i = 1; i < nb; ++i) if (!vh::same_bits(MatrixXd(R.block(0, 0, bs, bs)), MatrixXd(R.block(0, bs * i, bs, bs)))) other = false;
+        if (other) R2 = R.block(0, 0, bs, bs);
+    }
+    if (other) {
+        VectorXd L2 = utils::multivariate_gaussian_log_density_UVR(x, m, U, V, R2);
+        VectorXd D2 = utils::multivariate_gaussian_density_UVR(x, m, U, V, R2);
+        o.n(L2.size()); o.m(L2); o.n(D2.size()); o.m(D2);
+    } else { o.n(0); o.n(0); }
     return o.str();
 }
 
